@@ -22,7 +22,9 @@ THEOREMS = ['Fsic.C18.' + n for n in [
     'export_is_rename', 'rename_only_opts', 'rename_commutes_with_selection', 'rename_commutes_with_append',
     'export_opts_raise_alike', 'unaliased_label_kept',
     'class_aliases_nearest_declaration', 'instance_uses_own_class_aliases', 'existing_instances_keep_their_map',
-    'instantiation_order_irrelevant', 'reassigned_aliases_used', 'reassignment_leaves_other_declarations']]
+    'instantiation_order_irrelevant', 'reassigned_aliases_used', 'reassignment_leaves_other_declarations',
+    'failed_op_preserves_state', 'failed_replace_is_prefix', 'read_op_preserves_state',
+    'resolution_depends_only_on_aliases', 'plain_twin_agrees', 'plain_twin_history', 'plain_is_twin']]
 RULE = ('(F) guard: 4 fixed cyclic/self maps are constructed in subprocesses (3 s limit, in parallel) before anything '
         'else; a call that does not return is a violation and keeps cyclic/self maps out of the in-process parts of '
         'that run. (A) every alias dict with keys from 4 alias names and values from those names + 2 variables + 1 '
@@ -56,9 +58,40 @@ RULE = ('(F) guard: 4 fixed cyclic/self maps are constructed in subprocesses (3 
         '(constructor keywords, every name of the shared pool read right after construction / after later class-level '
         'events / at the end, histories, export), class __dict__ entries untouched by instantiation; self.aliases, '
         'preferred_names, resolutions and export labels of every instance vs the model of the class table. '
+        '(I) histories with FAILING operations (harness/alias_failops.py), run in parallel worker processes: models, '
+        'linkers with an aliased submodel and plain containers; variable-name pools plain / underscore twins (Y and _Y) / '
+        'class-member-like names (those of size, copy, eval, nbytes, LAGS, CODE, reindex, values, solve_t, to_dataframe, '
+        'NAMES, solve, replace_values, add_variable, get_closest_match, sizes, submodels ... that HEAD constructs) / case '
+        'twins (Y and y: near misses tie) / the mixin\'s own attribute names; alias names plain, member-like (size, values, '
+        'copy, nbytes, eval) or a storage key (_Y); every object next to a PLAIN twin = the same class without the mixin '
+        'driven through canonical names. Raise sites reachable through the public API that are exercised, interleaved with '
+        'successful operations: containers.py __setattr__ strict rejection (AttributeError, NotImplementedError when near '
+        'misses tie; typos of variable and of alias names) and DimensionError / NumPy ValueError / TypeError (wrong length, '
+        'wrong shape, not a number, through names and aliases), __getitem__ / __setitem__ KeyError (unknown name, near miss, '
+        'alias of an undefined target), IndexError (tuple of length 1 / 3), TypeError (key of another type), '
+        '_locate_period_in_span KeyError (bad label, bad slice end), add_variable / add_attribute DuplicateNameError '
+        '(existing variable, attribute, taken storage key; an alias name is ACCEPTED - finding) and DimensionError / '
+        'ValueError (ill-shaped or uncastable value), eval AttributeError (undefined name, alias spelled) / KeyError (bad '
+        'backticked label) / ValueError (slice with too many items), values setter DimensionError / ValueError, reindex '
+        'KeyError (unknown fill key under strict) / NotImplementedError (linker), replace_values with one bad key or bad '
+        'value among good ones; interfaces.py / models.py / linkers.py: constructor InitialisationError (near-miss keyword '
+        'under strict), solve ValueError (min_iter > max_iter), KeyError (bad start / period), solve_t IndexError (t or '
+        'offset outside the span), NonConvergenceError (failures=raise), SolutionError (NaN with errors=raise), '
+        'AttributeError (no solver on a container); extensions/common.py: to_dataframe(use_aliases=True) ValueError '
+        '(ambiguous preferred_names set at run time), TypeError (unknown option), obj.preferred_names = ... under strict; '
+        'plus get_closest_match, copy, deepcopy, dir, _ipython_key_completions_, `in`, del. After EVERY operation: outcome '
+        'vs the plain twin (value, or exception family: fails iff the canonical operation fails); a failed operation (other '
+        'than replace_values / solve / values setter, where the plain twin is the reference for what is left behind) and '
+        'every read leave names, index, _attributes, __dict__ keys and values, aliases, preferred_names, every series '
+        '(bytes + dtype), status / iterations, span, strict, size, nbytes, values, the plain and the aliased export under '
+        'two option sets and the class-level NAMES / ALIASES / PREFERRED_NAMES exactly as they were; the whole observation '
+        'equals the plain twin\'s (mixin attributes aside); copies and reindexed objects vs the plain twin\'s; 35% of the '
+        'histories (models and containers, operations of FsicModel/AliasFail.lean) also vs the model: result and names / '
+        'index / series / attributes / aliases / preferred_names after every operation. '
         'distinct = distinct (part, alias map, preferences, '
         'history); non-trivial = the map is not empty and (D, E) the case goes through at least one declared name, '
-        '(H) at least one declared map and two instances')
+        '(H) at least one declared map and two instances, (I) at least one operation through a declared alias and at '
+        'least one failed operation')
 TRUSTED = ['pandas DataFrame.rename(columns=d) maps each label through d, leaves other labels and all data alone '
            '(exercised by the export oracle on every case)',
            'Python set/dict semantics as modelled (set intersection size, dict insertion order, later key wins)',
@@ -92,15 +125,25 @@ ASSUMPTIONS = ['ALIASES is a dict of str to str; alias names are not names of at
                'not claimed where the class\'s current ALIASES / PREFERRED_NAMES are themselves rejected by the constructor '
                '(copy() re-runs the constructor on them and raises ValueError on the current tree - counted as '
                '`hier-copy:class-declaration-now-rejected`)',
+               '(I) which operation fails with which class is the base classes\' business: the aliased object must fail iff '
+               'the plain twin fails on the canonical name, with the same class family; a failed operation must leave the '
+               'aliased object as it was - absolutely - except replace_values, solve*, the values setter, which HEAD applies '
+               'piecewise (there the plain twin is the reference); operations the mixin does not wrap (eval, reindex, `in`, '
+               'del, add_variable) take names literally: their outcome is compared with the plain twin only when no alias is '
+               'spelled, their effect on the state always',
+               'open findings (known_findings.json) kept out of the other comparisons: an alias whose name is an attribute '
+               'of the object (member-like names, storage keys) is not consulted on attribute reads; a variable named '
+               '`aliases` / `preferred_names` reads as the mixin\'s attribute; add_variable accepts an alias name (the '
+               'history ends there: the name is both an alias and a variable from then on)',
                'read/write = the four wrapped accessors, replace_values, constructor keywords and code that uses them '
                '(weaker reading); paths the mixin does not wrap are not claimed: `name in model`, eval() of an expression '
                'that spells an alias, reindex(**fill_values) keyed by an alias are not alias-aware on the current tree']
 
 META = {
-    "text": "Theorems for every alias map, store, value semantics and operation history. Alias stage of AliasMixin.__init__ (self-map filter, loop bounded by range(len(aliases)+1), else: raise ValueError, second filter), at full strength for EVERY dict: if no cycle remains after dropping the entries X -> X it returns the remaining aliases each pointing at the end of its chain (len+1 passes always suffice: pigeonhole, distances double per pass), otherwise it raises ValueError - ValueError iff a cycle remains, both directions; {'Y': 'Y'} yields the empty map, {'A': 'B', 'B': 'A'} raises; the filter after the loop is dead code, the one in front is not. On an instance map every read/write/label access/bulk replacement/constructor keyword through a name is the plain container's operation on resolve(name), for all histories (refinement), two spellings that resolve alike are indistinguishable, the index never changes and no attribute named like an alias is ever created; the export changes labels only (data, count, order kept), a changed label is an alias of the old one, labels stay distinct under the guard, the preferred name is chosen, ambiguous preferences are rejected by the constructor check (iff) and by the export. The model is tied to the code by exhaustive comparison over small alias maps (plain, self-maps, cycles) / preference lists and random histories; a twin-model oracle searches the real code, self-maps included. Export with options: the export is rename with a label map that depends on the instance only (export_is_rename), so for every combination of status / iterations / include_internal the aliased frame has exactly the columns and data of the plain frame with the same options (rename_only_opts), renaming commutes with the option-driven selection and with appending the solution columns, and whether it raises does not depend on the options. Class hierarchies: Cls.ALIASES is the nearest own declaration along the parents (class_aliases_nearest_declaration); for every history of class statements, constructor calls, re-assignments, in-place changes and deletions an instance holds the constructor's result on its own class's ALIASES / PREFERRED_NAMES as of its creation and keeps it (instance_uses_own_class_aliases, existing_instances_keep_their_map), the constructor never writes class-level state, so the order of instantiation is irrelevant (instantiation_order_irrelevant).",
+    "text": "Theorems for every alias map, store, value semantics and operation history. Alias stage of AliasMixin.__init__ (self-map filter, loop bounded by range(len(aliases)+1), else: raise ValueError, second filter), at full strength for EVERY dict: if no cycle remains after dropping the entries X -> X it returns the remaining aliases each pointing at the end of its chain (len+1 passes always suffice: pigeonhole, distances double per pass), otherwise it raises ValueError - ValueError iff a cycle remains, both directions; {'Y': 'Y'} yields the empty map, {'A': 'B', 'B': 'A'} raises; the filter after the loop is dead code, the one in front is not. On an instance map every read/write/label access/bulk replacement/constructor keyword through a name is the plain container's operation on resolve(name), for all histories (refinement), two spellings that resolve alike are indistinguishable, the index never changes and no attribute named like an alias is ever created; the export changes labels only (data, count, order kept), a changed label is an alias of the old one, labels stay distinct under the guard, the preferred name is chosen, ambiguous preferences are rejected by the constructor check (iff) and by the export. The model is tied to the code by exhaustive comparison over small alias maps (plain, self-maps, cycles) / preference lists and random histories; a twin-model oracle searches the real code, self-maps included. Export with options: the export is rename with a label map that depends on the instance only (export_is_rename), so for every combination of status / iterations / include_internal the aliased frame has exactly the columns and data of the plain frame with the same options (rename_only_opts), renaming commutes with the option-driven selection and with appending the solution columns, and whether it raises does not depend on the options. Class hierarchies: Cls.ALIASES is the nearest own declaration along the parents (class_aliases_nearest_declaration); for every history of class statements, constructor calls, re-assignments, in-place changes and deletions an instance holds the constructor's result on its own class's ALIASES / PREFERRED_NAMES as of its creation and keeps it (instance_uses_own_class_aliases, existing_instances_keep_their_map), the constructor never writes class-level state, so the order of instantiation is irrelevant (instantiation_order_irrelevant). Error paths (FsicModel/AliasFail.lean: the instance with self.names, self.aliases, self.preferred_names as fields of the state; accessors, eval, add_variable, preferred_names assignment, export, get_closest_match): every operation that fails leaves the instance exactly as it was - replace_values, which HEAD applies key by key, leaves exactly the assignments before the failing key and never touches names, alias map, preferences, index, strict (failed_op_preserves_state, failed_replace_is_prefix); reads never change anything (read_op_preserves_state); no operation, failed or not, changes the alias map, so resolution is a function of the alias map and the name alone after any history (resolution_depends_only_on_aliases); the object equals its plain twin driven through resolved names after every history of successful and failed operations, failing iff the twin fails with the same class (plain_twin_agrees, plain_twin_history).",
     "design_ref": "DESIGN.md §5 M8, §6 C18, §7 row 14",
-    "note": "Trusted: Lean kernel; axioms propext/Classical.choice/Quot.sound; the correspondence harness, which validates the hand-written model on generated cases only; pandas rename and Python dict/set semantics as modelled. Findings self-alias-hang / alias-cycle-hang fixed by ca9bf22 (a subprocess guard with a 3 s limit still watches for the hang; an in-process alarm backs it up). Guards: alias names are not variable/attribute names (no-duplicate-column claim, twin oracle).",
-    "technique": "Lean 4 proof (loop invariant with chain doubling, pigeonhole, refinement by induction over histories) + differential correspondence check + twin-model oracle"
+    "note": "Trusted: Lean kernel; axioms propext/Classical.choice/Quot.sound; the correspondence harness, which validates the hand-written model on generated cases only; pandas rename and Python dict/set semantics as modelled. Findings self-alias-hang / alias-cycle-hang fixed by ca9bf22 (a subprocess guard with a 3 s limit still watches for the hang; an in-process alarm backs it up). Guards: alias names are not variable/attribute names (no-duplicate-column claim, twin oracle). Open findings: add-variable-alias-name:unreachable, alias-name-is-object-attribute:getattr, variable-named-like-mixin-attribute:getattr.",
+    "technique": "Lean 4 proof (loop invariant with chain doubling, pigeonhole, refinement by induction over histories) + differential correspondence check + twin-model oracle + plain-twin / absolute-snapshot oracle over histories with failing operations"
 }
 
 KEY_SELF_HANG = 'self-alias-hang'
@@ -821,11 +864,14 @@ def gen_history_case(rng):
 
 
 def canon_val(r):
-    if isinstance(r, np.ndarray):
-        return 'l:' + ','.join(str(int(x)) for x in r.tolist())
-    if isinstance(r, (list, tuple)):
-        return 'l:' + ','.join(str(int(x)) for x in r)
-    return 'i:' + str(int(r))
+    try:
+        if isinstance(r, np.ndarray):
+            return 'l:' + ','.join(str(int(x)) for x in r.tolist())
+        if isinstance(r, (list, tuple)):
+            return 'l:' + ','.join(str(int(x)) for x in r)
+        return 'i:' + str(int(r))
+    except (TypeError, ValueError):
+        return 'other:' + repr(r)[:60]
 
 
 def canon_err(e):
@@ -874,7 +920,12 @@ def run_history_impl(case, budget, rep):
                 res.append('ok')
         except Exception as e:  # noqa: BLE001
             res.append(canon_err(e))
-    series = ';'.join(f'{nm}=' + ','.join(str(int(x)) for x in a.__dict__['_' + nm].tolist()) for nm in a.names)
+    if list(a.names) != list(Plain.NAMES) or list(a.index) != ['status', 'iterations'] + list(Plain.NAMES):
+        # no operation of this part adds a variable: the name lists are the class's, whatever failed on the way
+        rep.violate('alias-adds-storage:names', f'after the history names={list(a.names)}, index={list(a.index)}; the '
+                    f'model declares {list(Plain.NAMES)} (ALIASES={dict(items)}, strict={case["strict"]})', case)
+    series = ';'.join(f'{nm}=' + (','.join(str(int(x)) for x in a.__dict__['_' + nm].tolist())
+                                  if '_' + nm in a.__dict__ else '<no storage>') for nm in a.names)
     attrs = ';'.join(f'{k}={canon_val(v)}' for k, v in a.__dict__.items() if k not in snapshot)
     return ' '.join(res) + '|' + series + '|' + attrs
 
@@ -1984,14 +2035,71 @@ def check_hierarchies(ctx, rep, rng, count, budget=None):
 
 
 # ---------------------------------------------------------------------------------------------------------------
+# (I) failing operations: plain twin + absolute snapshots (harness/alias_failops.py)
 
-def run(ctx, rep):
+import alias_failops as fo  # noqa: E402
+
+
+def check_failops(ctx, rep, rng, count):
+    tcases = []
+    for _ in range(count):
+        case = fo.gen_fail_case(rng)
+        m = dict(map(tuple, case['m']))
+        if not CYCLIC_OK[0] and not is_plain(m):
+            continue
+        regime = fo.run_fail_case(ctx, rep, case, tcases)
+        jc = jsonable_case(case)
+        through = any(x in strip_self(m) for op in case['ops'] for x in op['names'])
+        failing = regime.startswith('ok:failed') and regime != 'ok:failed0'
+        rep.case(('I', json.dumps(jc, sort_keys=True, default=str)), nontrivial=through and failing,
+                 sample=sample_once('I', 97, rep.evaluations, {'part': 'I', 'case': jc, 'regime': regime}))
+        rep.dist['failops:' + regime] += 1
+        rep.dist['failops-kind:' + case['kind']] += 1
+        if case['kind'] == 'linker':
+            rep.dist['failops-submodel-extra-names:' + (','.join(case['sub_extra']) or 'none')] += 1
+        rep.dist['failops-name-pool:' + case['pool']] += 1
+        for ak in case['alias_kinds'] or ['plain']:
+            rep.dist['failops-alias-names:' + ak] += 1
+        rep.dist['failops-strict:' + str(case['strict'])] += 1
+        rep.dist['failops-model-compared:' + str(bool(case['teligible']))] += 1
+    if not ctx.oracle_only and tcases:
+        outs = ctx.drive([line('alias_xhistory', c) for c, _, _ in tcases])
+        for (c, impl, jc), a in zip(tcases, outs):
+            ok, why = fo.t_compare(a, impl)
+            if not ok:
+                rep.disagree('instance with failing operations (names, index, series, attributes, aliases, '
+                             'preferred_names after every operation; results): model != impl', jc, a,
+                             why + ' :: ' + ' ## '.join(r + ' @ ' + d for r, d in impl))
+
+
+def _run_parts(ctx, rep):
+    """Workers 0-3: the parts (A)-(D), (E), (G), (H); the other workers: part (I).  With fewer than six workers:
+    everything in a row in worker 0."""
     quick = ctx.tier == 'quick'
-    _SAMPLED.clear()
-    # guard first: a constructor that never returns for a cyclic/self map must not hang the check
-    CYCLIC_OK[0] = hang_guard(ctx, rep)
-    if not CYCLIC_OK[0]:
-        rep.notes.append('hang guard tripped: cyclic maps and self-maps are not constructed in-process in this run')
+    n_i = (5000 if quick else 90000) * ctx.scale
+    try:
+        if ctx.parts < len(LEGACY) + 2:
+            if ctx.part == 0:
+                for f in LEGACY:
+                    f(ctx, rep)
+                check_failops(ctx, rep, ctx.sub_rng('failops'), n_i)
+        elif ctx.part < len(LEGACY):
+            LEGACY[ctx.part](ctx, rep)
+        else:
+            share = n_i // (ctx.parts - len(LEGACY)) + 1
+            check_failops(ctx, rep, ctx.sub_rng('failops'), share)
+    except Exception as e:  # noqa: BLE001
+        # the harness itself fell over (state it does not expect): decided in run() - next to violations found
+        # elsewhere in the same run it is a consequence of the code under test, on its own it is an infrastructure error
+        import traceback
+        rep.notes.insert(0, 'CRASH worker %d: ' % ctx.part + ''.join(traceback.format_exception(type(e), e, e.__traceback__))[-1500:])
+
+
+# ---------------------------------------------------------------------------------------------------------------
+
+def legacy_ad(ctx, rep):
+    """(A)-(D): alias stage, preferences, stub export, histories vs the model."""
+    quick = ctx.tier == 'quick'
     budget = Budget()
     # probe: the simplest acyclic maps must construct at all (guards every in-process part below)
     check_shorten(ctx, rep, [[], [['GDP', 'Y']], [['a', 'b'], ['b', 'Y']]], ['GDP', 'a', 'b', 'Y'], 'probe', budget)
@@ -2009,17 +2117,43 @@ def run(ctx, rep):
         check_export_stub(ctx, rep, ctx.sub_rng('export'), (1500 if quick else 30000) * ctx.scale, budget)
     if not budget.exhausted:
         check_histories(ctx, rep, ctx.sub_rng('history'), (2500 if quick else 60000) * ctx.scale, budget)
-    if not budget.exhausted:
-        check_twins(ctx, rep, ctx.sub_rng('twin'), (700 if quick else 15000) * ctx.scale, budget)
-    if not budget.exhausted:
-        check_export_opts(ctx, rep, ctx.sub_rng('export-opts'), (150 if quick else 2000) * ctx.scale, budget)
-        rep.notes.append(f'(G) {sum(v for k, v in rep.dist.items() if k.startswith("opts-kind:"))} objects (models, '
-                         f'linkers, containers) x {len(OPT_COMBOS)} flag combinations x 2 spellings')
-    if not budget.exhausted:
-        check_hierarchies(ctx, rep, ctx.sub_rng('hier'), (350 if quick else 6000) * ctx.scale, budget)
-        rep.notes.append(f'(H) {rep.dist["hier-event:class"]} classes, {rep.dist["hier-event:new"]} constructor calls, '
-                         f'{sum(v for k, v in rep.dist.items() if k.startswith("hier-change-after-instance:") and not k.endswith(":none"))} '
-                         'class-level changes after the first instance')
+
+
+def legacy_e(ctx, rep):
+    check_twins(ctx, rep, ctx.sub_rng('twin'), (700 if ctx.tier == 'quick' else 15000) * ctx.scale, Budget())
+
+
+def legacy_g(ctx, rep):
+    check_export_opts(ctx, rep, ctx.sub_rng('export-opts'), (150 if ctx.tier == 'quick' else 2000) * ctx.scale, Budget())
+
+
+def legacy_h(ctx, rep):
+    check_hierarchies(ctx, rep, ctx.sub_rng('hier'), (350 if ctx.tier == 'quick' else 6000) * ctx.scale, Budget())
+
+
+LEGACY = [legacy_ad, legacy_e, legacy_g, legacy_h]
+
+
+def run(ctx, rep):
+    _SAMPLED.clear()
+    # guard first: a constructor that never returns for a cyclic/self map must not hang the check
+    CYCLIC_OK[0] = hang_guard(ctx, rep)
+    if not CYCLIC_OK[0]:
+        rep.notes.append('hang guard tripped: cyclic maps and self-maps are not constructed in-process in this run')
+    fo.usable_member_names()
+    framework.parallel(_run_parts, ctx, rep, parts=min(ctx.workers, 16))
+    crashes = [x for x in rep.notes if x.startswith('CRASH ')]
+    if crashes and not rep.violations:
+        raise RuntimeError(crashes[0])
+    rep.notes.append(f'(G) {sum(v for k, v in rep.dist.items() if k.startswith("opts-kind:"))} objects (models, '
+                     f'linkers, containers) x {len(OPT_COMBOS)} flag combinations x 2 spellings')
+    rep.notes.append(f'(H) {rep.dist["hier-event:class"]} classes, {rep.dist["hier-event:new"]} constructor calls, '
+                     f'{sum(v for k, v in rep.dist.items() if k.startswith("hier-change-after-instance:") and not k.endswith(":none"))} '
+                     'class-level changes after the first instance')
+    rep.notes.append(f'(I) {sum(v for k, v in rep.dist.items() if k.startswith("failops-kind:"))} histories with failing '
+                     f'operations, {sum(v for k, v in rep.dist.items() if k.startswith("failops-op:") and not k.endswith(":ok"))} '
+                     f'failed operations, {rep.dist["failops-model-compared:True"]} histories also run through the model; '
+                     f'member-like variable names HEAD constructs: {fo.usable_member_names()}')
     rep.exhaustive = False
 
 
@@ -2083,6 +2217,16 @@ def replay(ctx, rep, case):
             for x, impl, _, _ in tc:
                 print('  model:', ctx.drive([line('alias_hier', x)])[0])
                 print('  impl :', ' ; '.join(str(y) for y in impl))
+        except Exception as e:  # noqa: BLE001
+            print('  model: <driver unavailable>', e)
+    elif part == 'failops':
+        c = case            # JSON-native
+        tc = []
+        print('  regime:', fo.run_fail_case(ctx, rep, c, tc))
+        try:
+            for x, impl, _ in tc:
+                out = ctx.drive([line('alias_xhistory', x)])[0]
+                print('  model vs impl:', fo.t_compare(out, impl))
         except Exception as e:  # noqa: BLE001
             print('  model: <driver unavailable>', e)
     else:
